@@ -3,7 +3,9 @@ package props
 import (
 	"strings"
 
+	"github.com/nlnwa/whatwg-url/canonicalizer"
 	"github.com/nlnwa/whatwg-url/url"
+	"golang.org/x/text/encoding/charmap"
 	"pgregory.net/rapid"
 
 	"verif/harness/core"
@@ -67,6 +69,21 @@ func implParses(c Case01) (names []string, res []parsed) {
 // (caches keyed too coarsely, state left behind by a previous call).
 var interferingParsers = []url.Parser{url.NewParser(url.WithLaxHostParsing(), url.WithAcceptInvalidCodepoints(), url.WithPercentEncodeSinglePercentSign())}
 
+// moreInterferingParsers: one of them (chosen by the input's length) parses the same input as well —
+// configurations that carry tables of their own (a special-scheme map with other entries, replaced
+// percent-encode sets, an encoding override, host callbacks) and the predefined profiles. Nothing a
+// differently configured parser holds or does may show in the default parser's result.
+var moreInterferingParsers = []url.Parser{
+	url.NewParser(url.WithSpecialSchemes(map[string]string{"http": "8080", "gopher": "70", "foo": "1", "file": "", "zz": ""}), url.WithCollapseConsecutiveSlashes(), url.WithSkipWindowsDriveLetterNormalization(),
+		url.WithPathPercentEncodeSet(url.PathPercentEncodeSet.Set('a', '~', '%').Clear('{', '}')), url.WithQueryPercentEncodeSet(url.QueryPercentEncodeSet.Set('\'', 'b')),
+		url.WithSpecialQueryPercentEncodeSet(url.SpecialQueryPercentEncodeSet.Clear('\'').Set('c')), url.WithFragmentPathPercentEncodeSet(url.FragmentPercentEncodeSet.Set('d').Clear('`'))),
+	url.NewParser(url.WithEncodingOverride(charmap.ISO8859_1), url.WithPreParseHostFunc(func(u *url.Url, h string) string { return strings.TrimSuffix(h, ".") }),
+		url.WithPostParseHostFunc(func(u *url.Url, h string) string { return strings.ToUpper(h) }), url.WithReportValidationErrors(), url.WithAllowSettingPathForNonBaseUrl(), url.WithSkipTrailingSlashNormalization(), url.WithSkipEqualsForEmptySearchParamsValue()),
+	canonicalizer.GoogleSafeBrowsing,
+	canonicalizer.Semantic,
+	canonicalizer.WhatWgSortQuery,
+}
+
 func interfere01(c Case01) {
 	in := string(c.Input)
 	// the byte-identical input through a differently configured parser: package-level memos keyed
@@ -74,6 +91,7 @@ func interfere01(c Case01) {
 	for _, ip := range interferingParsers {
 		_, _ = ip.Parse(in)
 	}
+	_, _ = moreInterferingParsers[len(in)%len(moreInterferingParsers)].Parse(in)
 	sc := gen.SchemeOf(preprocess(in))
 	if sc == "" {
 		_, _ = url.Parse("foo:" + in)
